@@ -551,6 +551,10 @@ func Build(s *Scenario) (*World, error) {
 				ResourceRequirements: corev1.ResourceRequirements{Requests: corev1.ResourceList{corev1.ResourceCPU: q(ds.CPU), corev1.ResourceMemory: qMi(ds.Mem)}},
 			},
 		})
+		if ds.LimitsOnly {
+			c := &d.Spec.Template.Spec.Containers[0]
+			c.Resources = corev1.ResourceRequirements{Limits: corev1.ResourceList{corev1.ResourceCPU: q(ds.CPU), corev1.ResourceMemory: qMi(ds.Mem)}}
+		}
 		for _, hp := range ds.HostPorts {
 			proto := corev1.Protocol(hp.Protocol)
 			if proto == "" {
@@ -760,6 +764,9 @@ func NodeLabels(n Node, pool *NodePool) map[string]string {
 	}
 	for k, v := range n.Labels {
 		l[k] = v
+	}
+	if n.Zone == "" {
+		delete(l, corev1.LabelTopologyZone)
 	}
 	return l
 }
